@@ -202,13 +202,17 @@ def sameFields (o q : QI) : Bool :=
 def replace (info : List QI) (q : QI) : List QI :=
   info.map (fun c => if c.name = q.name then q else c)
 
+/-- no namespace of the request is bound to another quota -/
+def nsFree (s : Topo) (q : QI) : Bool :=
+  !(q.ns.any (fun n => match nsGet s.nsMap n with | some o => o != q.name | none => false))
+
 /-- ValidUpdateQuota; the old object is the last accepted one (its compared fields are the
     recorded ones), absent when the name is unknown. -/
 def validUpdate (d : Nat) (s : Topo) (q : QI) (swNeg hasPods : Bool) : Topo × Bool :=
   let old := find s.info q.name
   if (match old with | some o => sameFields o q | none => false) then (s, true)
   else if q.name = 0 || q.name = 1 then (s, false)
-  else if q.ns.any (fun n => match nsGet s.nsMap n with | some o => o != q.name | none => false) then (s, false)
+  else if !(nsFree s q) then (s, false)
   else match old with
   | none => (s, false)
   | some o =>
